@@ -1,4 +1,4 @@
 From Rws Require Import Str Utf8 Num Request RangeSpec UrlParse Fs StaticRes Forms Server GenCli Config RespParse Base64 Json JsonArray.
 Require Import ExtrOcamlBasic.
 Extraction Language OCaml.
-Extraction "model.ml" parse_request generate parse_range target_url process process_with all_headers mkFs mkCfg mkAssets multipart_parse parse_query encode_uri decode_uri setup env_get flag_table response_parse Base64.encode Base64.decode parse_as_properties split_array process_legacy.
+Extraction "model.ml" parse_request generate get_header parse_range target_url process process_with all_headers mkFs mkCfg mkAssets multipart_parse parse_query encode_uri decode_uri setup env_get flag_table response_parse Base64.encode Base64.decode parse_as_properties split_array process_legacy.
